@@ -45,6 +45,7 @@ type Obligation struct {
 }
 
 type Ctx struct {
+	noHide bool // obligations over the merged exit state: no path is hidden
 	P           *Program
 	sc          *Script
 	heapSort    map[string]string
@@ -144,6 +145,16 @@ func newCtx(P *Program, prop string) *Ctx {
 
 func (c *Ctx) trust(s string) { c.trusted[s] = true }
 
+// hideNow: the script ranges that are not part of a query created at the current
+// position. Obligations over the merged exit state of a function (frame, exit
+// smoke) depend on every path: nothing is hidden for them.
+func (c *Ctx) hideNow() [][2]int {
+	if c.noHide {
+		return nil
+	}
+	return c.sc.hideFor(c.sc.mark() - 1)
+}
+
 func (c *Ctx) oblige(kind, name string, tags []string, reach, goal T, pos token.Pos, text string) *Obligation {
 	if goal == "true" {
 		return nil
@@ -168,14 +179,14 @@ func (c *Ctx) oblige(kind, name string, tags []string, reach, goal T, pos token.
 			env.at = "known finding " + f.ID
 			wt := env.evalBool(w)
 			o := &Obligation{Fn: c.fnKey, Name: full + "|finding:" + f.ID, Kind: kind, Tags: tags, Pos: c.P.pos(pos), Text: text,
-				mark: c.sc.mark(), cond: and(reach, wt, not(goal)), sc: c.sc, Canary: true, Finding: f.ID, replay: c.replay, hide: c.sc.hideFor(c.sc.mark() - 1)}
+				mark: c.sc.mark(), cond: and(reach, wt, not(goal)), sc: c.sc, Canary: true, Finding: f.ID, replay: c.replay, hide: c.hideNow()}
 			c.obls = append(c.obls, o)
 			reach = and(reach, not(wt))
 			oname = oname + "|not:" + f.ID
 		}
 	}
 	o := &Obligation{Fn: c.fnKey, Name: oname, Kind: kind, Tags: tags, Pos: c.P.pos(pos), Text: text,
-		mark: c.sc.mark(), cond: and(reach, not(goal)), sc: c.sc, replay: c.replay, hide: c.sc.hideFor(c.sc.mark() - 1)}
+		mark: c.sc.mark(), cond: and(reach, not(goal)), sc: c.sc, replay: c.replay, hide: c.hideNow()}
 	c.obls = append(c.obls, o)
 	// proved (or reported) once: later code may rely on it
 	c.sc.assume(imp(reach, goal))
